@@ -112,6 +112,7 @@ func run(r *core.Run) {
 			return true
 		})
 	}
+	matrix(r, ch)
 	r.Section("bytes<=2")
 	for l := 0; l <= 2; l++ {
 		gen.Tuples(l, 256, func(ix []int) bool {
@@ -331,4 +332,126 @@ func pipeline(ctx *cue.Context, src []byte) []byte {
 	werr("yaml", err)
 	out.Write(y)
 	return out.Bytes()
+}
+
+// ---- operator and builtin boundary matrix ----
+
+var operands = []string{"-1", "0", "1", "2", "-9223372036854775808", "9223372036854775807", "18446744073709551616", "1000001", "-0.5", "0.0", "1e400", `"ab"`, `""`, "'ab'", "[1, 2]", "[]", "{a: 1}", "null", "true", "int", "string", "_|_", ">5", "*1 | 2"}
+
+var binops = []string{"+", "-", "*", "/", "div", "mod", "quo", "rem", "&", "|", "==", "!=", "<", "<=", ">", ">=", "=~", "!~", "&&", "||"}
+
+var intArgs = []string{"-1", "0", "1", "2", "1000001", "9223372036854775807", "-9223372036854775808", "18446744073709551616"}
+
+var rangeArgs = []string{"-1", "0", "1", "2", "5", "9223372036854775807", "-9223372036854775808", "18446744073709551616"}
+
+// builtin calls with N, M, K standing for integer arguments
+var builtinCalls = []string{
+	`strings.Repeat("ab", N)`, `strings.SplitN("a,b,c", ",", N)`, `strings.Replace("aaa", "a", "b", N)`, `strings.ByteAt("ab", N)`,
+	`strings.ByteSlice("abc", N, M)`, `strings.SliceRunes("abc", N, M)`, `strings.Runes("ab")[N]`, `"ab" & strings.MinRunes(N)`, `"ab" & strings.MaxRunes(N)`,
+	`list.Repeat([1], N)`, `list.Take([1, 2], N)`, `list.Drop([1, 2], N)`, `list.Slice([1, 2, 3], N, M)`, `list.Range(N, M, K)`, `list.FlattenN([[1, [2]]], N)`,
+	`[1, 2] & list.MinItems(N)`, `[1, 2] & list.MaxItems(N)`, `[1, 2][N]`, `"abc"[N]`, `'abc'[N]`,
+	`math.Pow(N, M)`, `math.Exp2(N)`, `math.Ldexp(1.5, N)`, `math.MultipleOf(N, M)`,
+	`strconv.FormatInt(N, M)`, `strconv.FormatUint(N, M)`, `strconv.ParseInt("12", N, M)`, `strconv.ParseUint("12", N, M)`, `strconv.FormatFloat(1.5, 102, N, M)`, `strconv.ParseFloat("1.5", N)`,
+	`bits.Lsh(N, M)`, `bits.Rsh(N, M)`, `bits.At(N, M)`, `bits.Set(N, M, 1)`, `bits.Len(N)`,
+	`struct.MinFields(N) & {a: 1}`, `struct.MaxFields(N) & {a: 1}`,
+	`time.Unix(N, M)`, `time.Duration(N)`, `net.IPv4 & "1.2.3.4"`, `base64.Decode(null, "ab==")`, `hex.Decode("zz")`,
+	`text/template.Execute("{{.x}}", {x: N})`,
+}
+
+func matrix(r *core.Run, ch *core.Child) {
+	r.Section(fmt.Sprintf("operator matrix: %d binary operators x %d^2 operands (literal and through a reference), 3 unary operators x operands", len(binops), len(operands)))
+	for _, op := range binops {
+		for _, a := range operands {
+			for _, b := range operands {
+				for ref := 0; ref < 2; ref++ {
+					if ref == 1 && !(strings.HasPrefix(b, "-") || strings.HasPrefix(a, "-")) {
+						continue // the reference form only for negative operands (literal folding differs)
+					}
+					if !r.Mine() {
+						continue
+					}
+					src := fmt.Sprintf("x: %s %s %s\n", a, op, b)
+					if ref == 1 {
+						src = fmt.Sprintf("p: %s\nq: %s\nx: p %s q\n", a, b, op)
+					}
+					c := kase{Src: src, From: "matrix"}
+					r.Guard(c, func() { check(r, ch, c) })
+				}
+			}
+		}
+		if r.Expired() {
+			return
+		}
+	}
+	for _, op := range []string{"-", "+", "!"} {
+		for _, a := range operands {
+			if !r.Mine() {
+				continue
+			}
+			c := kase{Src: fmt.Sprintf("x: %s(%s)\n", op, a), From: "matrix"}
+			r.Guard(c, func() { check(r, ch, c) })
+		}
+	}
+	r.Section(fmt.Sprintf("builtin boundary matrix: %d calls x integer arguments from %d boundary values", len(builtinCalls), len(intArgs)))
+	imports := "import (\n\t\"strings\"\n\t\"list\"\n\t\"math\"\n\t\"strconv\"\n\t\"math/bits\"\n\t\"struct\"\n\t\"time\"\n\t\"net\"\n\t\"encoding/base64\"\n\t\"encoding/hex\"\n\t\"text/template\"\n)\n"
+	for _, call := range builtinCalls {
+		nVars := 0
+		for _, v := range []string{"N", "M", "K"} {
+			if strings.Contains(call, v) {
+				nVars++
+			}
+		}
+		args := intArgs
+		if strings.HasPrefix(call, "list.Range") {
+			// no 1000001: half a million elements are legal and merely slow
+			args = rangeArgs
+		}
+		gen.Tuples(nVars, len(args), func(ix []int) bool {
+			if !r.Mine() {
+				return !r.Expired()
+			}
+			e := call
+			for i, v := range []string{"N", "M", "K"}[:nVars] {
+				e = replaceIdent(e, v, args[ix[i]])
+			}
+			// only the imports that are used (unused imports are errors)
+			c := kase{Src: usedImports(imports, e) + "x: " + e + "\n", From: "matrix"}
+			r.Guard(c, func() { check(r, ch, c) })
+			return true
+		})
+	}
+}
+
+// replaceIdent replaces the stand-alone identifier v (N, M, K) in e.
+func replaceIdent(e, v, with string) string {
+	var b strings.Builder
+	for i := 0; i < len(e); i++ {
+		isIdent := func(c byte) bool {
+			return c == '_' || c == '.' || c == '"' || (c >= 'a' && c <= 'z') || (c >= 'A' && c <= 'Z') || (c >= '0' && c <= '9')
+		}
+		if e[i] == v[0] && (i == 0 || !isIdent(e[i-1])) && (i+1 == len(e) || !isIdent(e[i+1])) {
+			b.WriteString(with)
+			continue
+		}
+		b.WriteByte(e[i])
+	}
+	return b.String()
+}
+
+func usedImports(all, e string) string {
+	var keep []string
+	for _, l := range strings.Split(all, "\n") {
+		t := strings.Trim(strings.TrimSpace(l), "\"")
+		if t == "" || t == "import (" || t == ")" {
+			continue
+		}
+		name := t[strings.LastIndex(t, "/")+1:]
+		if strings.Contains(e, name+".") {
+			keep = append(keep, "\t\""+t+"\"")
+		}
+	}
+	if len(keep) == 0 {
+		return ""
+	}
+	return "import (\n" + strings.Join(keep, "\n") + "\n)\n"
 }
